@@ -5,7 +5,7 @@
 From Coq Require Import List Arith Bool.
 Import ListNotations.
 From C17 Require Import Sem Progs Static Annot FutRaw.
-From C17 Require Exec ExecLive Ss FutCopy0 Per Owner Sd WitnessR8.
+From C17 Require Exec ExecLive Ss FutCopy0 Per Owner Sd WitnessR8 Conserve Pool ConserveAll.
 From Coq Require Import Permutation.
 
 (* Data-race freedom of the model: whenever a thread is about to execute an instruction that reads
@@ -274,3 +274,44 @@ Theorem c17_saver_join_hang_before_fix :
   snd (run P 300 init_prefsj WitnessR8.hang_schedule 0 [] []) = Finished.
 Proof. exact WitnessR8.saver_join_hangs_before_fix. Qed.
 Print Assumptions c17_saver_join_hang_before_fix.
+
+(* ---- conservation of callbacks, for EVERY program of the checked table, any number of threads, every step of every
+   schedule (scenarios whose threads use one callback queue q and never swap it): if the callbacks queued so far
+   are, as a multiset, exactly those already run, those popped and in some thread's hand, and those still queued,
+   then this still holds after the step.  Nothing is ever duplicated or dropped by the machine's executors. *)
+Theorem c17_conservation_step : forall q s l s',
+  Inv P An s ->
+  (forall t, t < nthr s -> forallb (Conserve.qonly q) (P (prog (thr s t))) = true) ->
+  Permutation (subm s) (map fst (ran s) ++ Conserve.curs s ++ que s q) ->
+  exec P s l = Some s' ->
+  Permutation (subm s') (map fst (ran s') ++ Conserve.curs s' ++ que s' q).
+Proof. intros q s l s'. exact (Conserve.ci_step An gv gq check_all q s l s'). Qed.
+Print Assumptions c17_conservation_step.
+
+(* ---- ThreadPool (scenario init_pool n: Init() with two workers, n x Execute, JoinAll()), every schedule, any n:
+   the closures queued so far are exactly (as a multiset) those run, those in a worker's hand and those still queued;
+   no closure id is queued twice and no closure is run twice; closures are run by the worker threads only, never
+   by the thread that called Execute.  PARTIAL: it is NOT proved here that the queue is empty and every closure has
+   run when JoinAll() returns, nor the pool's wake-up invariant; the model has exactly two workers. *)
+Theorem c17_pool_exec_once_partial : forall n s, reach P (init_pool n) s ->
+  Permutation (subm s) (map fst (ran s) ++ Conserve.curs s ++ que s PQ) /\
+  NoDup (subm s) /\ NoDup (map fst (ran s)) /\
+  (forall c, In c (subm s) -> fst c = 0) /\
+  (forall c t, In (c, t) (ran s) -> t = 1 \/ t = 2).
+Proof. exact Pool.pool_exec_once. Qed.
+Print Assumptions c17_pool_exec_once_partial.
+
+(* ---- ExecutorThread where callbacks call Execute again from inside the callback (scenario init_execre), every
+   schedule, any number of producers / callbacks / re-submissions: callbacks are conserved (none duplicated, none
+   lost).  PARTIAL: uniqueness of the ids and the drained-at-destruction clause are not proved for this scenario. *)
+Theorem c17_execre_conserved_partial : forall lims rs s, reach P (init_execre lims rs) s ->
+  Permutation (subm s) (map fst (ran s) ++ Conserve.curs s ++ que s Q).
+Proof. exact ConserveAll.execre_conserved. Qed.
+Print Assumptions c17_execre_conserved_partial.
+
+Example ex_pool_state : exists s, reach P (init_pool 2) s /\ pc (thr s 0) = 3 /\ stat (thr s 1) = Fresh.
+Proof.
+  destruct (run_labels P (init_pool 2) [LStep 0 0; LStep 0 0; LStep 0 0; LStep 0 0]) as [s|] eqn:E; [|vm_compute in E; discriminate E].
+  exists s. split; [exact (run_labels_reach P (init_pool 2) _ (init_pool 2) s (reach_refl P (init_pool 2)) E)|].
+  vm_compute in E. inversion E; subst. split; reflexivity.
+Qed.
